@@ -30,6 +30,16 @@ pub struct Plan {
     pub witness_names: &'static [(&'static str, u64)],
 }
 
+fn set_hash(s: &std::collections::HashSet<u64>) -> String {
+    let mut v: Vec<u64> = s.iter().copied().collect();
+    v.sort_unstable();
+    let mut h = crate::sim::Fnv::default();
+    for x in v {
+        h.u64(x);
+    }
+    format!("{:016x}", h.0)
+}
+
 fn bound_str(k: Option<u32>) -> String {
     match k {
         None => "none".into(),
@@ -176,6 +186,7 @@ pub fn run_cases(args: &Args, rep: &mut Report, cases: Vec<Case>, plan: &Plan) {
         }
     }
     // the smallest cases: the complete tree, if the wall budget allows
+    let por_blocked = std::sync::atomic::AtomicU64::new(0);
     {
         let pending: Vec<usize> = (0..cases.len()).filter(|i| cases[*i].try_unbounded && !states[*i].lock().unwrap().done).collect();
         for i in pending {
@@ -184,12 +195,19 @@ pub fn run_cases(args: &Args, rep: &mut Report, cases: Vec<Case>, plan: &Plan) {
             }
             let c = &cases[i];
             let t0 = Instant::now();
-            let stx = explore::explore(
-                Budget::new(Budget::UNBOUNDED, plan.env, plan.fault),
+            // complete exploration modulo commutation of independent steps (sleep sets)
+            let full = std::env::var_os("VERIF_FULL_UNBOUNDED").is_some();
+            let (stx, blocked_runs) = if full {
+                // self-check of the reduction: the plain, unreduced tree (only feasible for micro cases)
+                (explore::explore(Budget::new(Budget::UNBOUNDED, plan.env, plan.fault), explore::Limits { max_execs: u64::MAX, deadline, threads, stop_after_violation_kinds: 0 }, &c.label, || (c.exec)(false)), 0)
+            } else {
+                explore::explore_por(
                 explore::Limits { max_execs: plan.max_execs_per_case.max(50_000_000), deadline, threads, stop_after_violation_kinds: 0 },
                 &c.label,
                 || (c.exec)(false),
-            );
+            )
+            };
+            por_blocked.fetch_add(blocked_runs, std::sync::atomic::Ordering::Relaxed);
             let dt = t0.elapsed().as_secs_f64();
             let mut st = states[i].lock().unwrap();
             st.levels.push((Budget::UNBOUNDED, stx.executions, dt));
@@ -268,6 +286,8 @@ pub fn run_cases(args: &Args, rep: &mut Report, cases: Vec<Case>, plan: &Plan) {
                 "bound_completed": bound_str(d.bound_completed),
                 "executions": st.executions,
                 "states": st.states.len(),
+                "state_set_hash": set_hash(&st.states),
+                "outcome_set_hash": set_hash(&st.outcomes),
                 "outcomes": st.outcomes.len(),
                 "max_steps": st.max_steps,
                 "levels": d.levels.iter().map(|(k, e, t)| json!([bound_str(Some(*k)), e, (t * 1000.0).round() / 1000.0])).collect::<Vec<_>>(),
@@ -285,6 +305,7 @@ pub fn run_cases(args: &Args, rep: &mut Report, cases: Vec<Case>, plan: &Plan) {
     rep.exhaustive = all_unbounded;
     let n_unb = results.iter().filter(|(_, d)| d.bound_completed == Some(Budget::UNBOUNDED)).count();
     rep.bounds.insert("cases_explored_to_exhaustion".into(), json!(n_unb));
+    rep.extra.insert("sleep_set_pruned_paths".into(), json!(por_blocked.load(std::sync::atomic::Ordering::Relaxed)));
     rep.bounds.insert("cases".into(), json!(cases.len()));
     rep.bounds.insert("deviation_bounds_tried".into(), json!(plan.ks.iter().map(|k| bound_str(Some(*k))).collect::<Vec<_>>()));
     rep.bounds.insert("min_deviation_bound_completed_over_cases".into(), json!(bound_str(min_bound)));
